@@ -17,6 +17,17 @@ Two kinds of case share the budget (case['kind']):
         cleanup) and checks at each what another process would see (= a crash
         there). Then one fresh run per raisable point raises an OSError there
         and the directory is checked again afterwards.
+ agent  what else the agent writes into the cache directory: the real
+        EventMgr.run(once=True) (presence watch, placement watch with the
+        first synchronisation, ready notifications, heartbeat) and single
+        _cache_notify(True/False) / _synchronize steps. Nothing of treadmill is
+        wrapped here: a sys audit hook reports every file system operation
+        that names a path below the cache directory or works on a descriptor
+        (open, mkstemp, chmod, rename, remove, mkdir, scandir ...), whoever
+        performs it; the directory is observed at each (= after the previous
+        operation, = a crash there) and, when case['faults'], one rerun per
+        mutating operation makes that operation fail. The same audit watch
+        also runs (observe only) during sync and fault cases.
 """
 
 import os
@@ -35,8 +46,12 @@ RULE = ('sync cases: a real EventMgr._synchronize on a temp root against the '
         'write_safe call of one synchronisation is observed (crash_points) '
         'and one run per raisable point raises there (injected_faults); '
         'non-trivial = some injected failure happened after >=1 byte of the '
-        'manifest had been written to the temp file. distinct = canonical '
-        'JSON of the case.')
+        'manifest had been written to the temp file. agent cases: real '
+        'run(once=True) / _cache_notify / _synchronize steps with the cache '
+        'directory observed at every file system operation (audit hook) and '
+        'each mutating operation failed once; non-trivial = >=1 mutating '
+        'operation and >=1 ready notification. distinct = canonical JSON of '
+        'the case.')
 ASSUMPTIONS = [
     'ZooKeeper is the in-memory fake (pbt/fakezk.py); placement and '
     'scheduled nodes are written by the real zkutils.put (JSON), placement '
@@ -53,6 +68,11 @@ ASSUMPTIONS = [
     'under check_existing an entry whose placement node is newer than its '
     'file must be refreshed (the "outdated files" of the quantifier)',
     'set iteration order of _synchronize is that of PYTHONHASHSEED=0',
+    'agent cases: context.GLOBAL.zk is the fake client, the heartbeat sleep '
+    'returns at once, utils.exit_on_unhandled lets the failure propagate '
+    '(instead of os._exit); watches are delivered synchronously, so a reader '
+    'racing the agent is modelled as an observation between two of its file '
+    'system operations, not as a second thread',
 ]
 TRUSTED = ['pbt/fakezk.py', 'pbt/cachefs.py', 'PyYAML safe loader']
 BUDGET = {'quick': 6400, 'thorough': 96000}
@@ -224,7 +244,7 @@ DELTA = st.sampled_from([1000, 5000, 3600000, 864000000])
 DIE6 = st.sampled_from(list(range(6)))
 DIE8 = st.sampled_from(list(range(8)))
 DIE4 = st.sampled_from(list(range(4)))
-DIE10 = st.sampled_from(list(range(10)))
+DIE12 = st.sampled_from(list(range(12)))
 BOOL = st.booleans()
 
 
@@ -360,10 +380,59 @@ def _fault_case(draw):
     }
 
 
+STEPS = st.sampled_from([
+    ['run_once'], ['run_once'], ['run_once', 'notify_stale', 'notify_ready'],
+    ['notify_ready', 'run_once'], ['sync', 'notify_ready'],
+    ['run_once', 'run_once'], ['notify_stale', 'run_once', 'sync'],
+    ['notify_ready', 'notify_stale'], ['notify_ready', 'sync', 'notify_ready'],
+])
+AGENT_ROLES = st.sampled_from([
+    ['missing'], ['missing', 'extra'], ['missing', 'existing', 'extra'],
+    ['existing', 'missing'], ['existing', 'existing'], ['extra'], [],
+    ['missing', 'missing', 'existing'],
+])
+
+
+def _agent_case(draw):
+    """What the agent does around the synchronisation: run(once=True) with
+    its presence / placement watches, ready notifications and heartbeat.
+    The placement list is the real children list, so placed == pnode."""
+    roles = list(draw(AGENT_ROLES))
+    names = draw(NAME_ORDER)[:len(roles)]
+    root = draw(DIE8) != 0
+    insts = []
+    for name, role in zip(names, roles):
+        inst = _instance(draw, name, role)
+        if not root:
+            inst['placed'] = False
+            inst['pnode'] = False
+            inst['pdata'] = None
+        elif inst['placed'] != inst['pnode']:
+            inst['pnode'] = inst['placed']
+            inst['pdata'] = draw(PDATA) if inst['pnode'] else None
+        insts.append(inst)
+    steps = list(draw(STEPS))
+    if not root:
+        steps = [step for step in steps if step != 'sync'] or ['run_once']
+    return {
+        'kind': 'agent',
+        'check_existing': True,     # the first synchronisation of run()
+        'presence': draw(DIE4) != 0,
+        'placement_root': root,
+        'instances': _shuffled(draw, insts),
+        'dotfiles': _dotfiles(draw, names[:1]),
+        'steps': steps,
+        'faults': draw(BOOL),
+    }
+
+
 @st.composite
 def cases(draw):
-    if draw(DIE10) == 0:
+    die = draw(DIE12)
+    if die == 0:
         return _fault_case(draw)
+    if die == 1:
+        return _agent_case(draw)
     return _sync_case(draw)
 
 
@@ -544,9 +613,85 @@ def _run_fault(case, stats):
     return after_bytes
 
 
+def _agent_steps(world, case, ctl, raisable, stats=None):
+    """Run the steps; returns (mutating fs operations, syncs performed)."""
+    mutations = syncs = 0
+    for step in case['steps']:
+        mutations += cachefs.agent_step(world, step, ctl, raisable)
+        synced = step == 'sync' or (step == 'run_once' and
+                                    case.get('placement_root') is not False)
+        world.check_observable('the end of step %r' % step)
+        if synced:
+            syncs += 1
+            if stats is not None and syncs == 1:
+                cachefs.check_after_sync(world, stats)
+    return mutations, syncs
+
+
+def _run_agent(case, stats):
+    stats.count('kind:agent')
+    _count_case(case, stats)
+    for step in case['steps']:
+        stats.count('agent_step:' + step)
+    world = cachefs.World(case)
+    try:
+        # reference run: the directory after every file system operation.
+        ctl = cachefs.Controller(world, None)
+        try:
+            mutations, syncs = _agent_steps(world, case, ctl, True, stats)
+        except Violation:
+            raise
+        except Exception as err:  # pylint: disable=broad-except
+            raise Violation(
+                'c12.agent.raised.%s' % type(err).__name__,
+                'the agent died in steps %r on a cache / ZooKeeper state the '
+                'node can be in: %s: %s' % (
+                    case['steps'], type(err).__name__,
+                    ' '.join(str(err).split())[:300]))
+        points = list(ctl.points)
+        stats.count('agent_fs_operations_observed', len(points))
+        stats.count('agent_syncs', syncs)
+        for label, _ in points:
+            stats.count('agent_point:' + label)
+        ready = os.path.exists(os.path.join(world.cache, '.ready'))
+        if ready:
+            stats.count('agent_ends_ready')
+
+        if case.get('faults'):
+            # one rerun per mutating operation: that operation fails.
+            for index, (label, raisable) in enumerate(points):
+                if not raisable:
+                    continue
+                world.reset()
+                ctl = cachefs.Controller(world, index)
+                try:
+                    _agent_steps(world, case, ctl, True)
+                except Violation:
+                    raise
+                except Exception:  # pylint: disable=broad-except
+                    if ctl.fired is None:
+                        raise
+                if ctl.fired is None:
+                    raise AssertionError(
+                        'harness: fs operation %d (%s) not reached on the '
+                        'rerun' % (index, label))
+                stats.count('crash_points')
+                stats.count('agent_injected_faults')
+                stats.count('agent_fault_at:' + label)
+                world.check_observable(
+                    'after the agent failed at fs operation %d (%s)' % (
+                        index, label), bucket_prefix='c12.fault')
+    finally:
+        world.close()
+    return mutations >= 1 and any(
+        step in ('run_once', 'notify_ready') for step in case['steps'])
+
+
 def execute(case, stats):
     if case.get('kind') == 'fault':
         return _run_fault(case, stats)
+    if case.get('kind') == 'agent':
+        return _run_agent(case, stats)
     return _run_sync(case, stats)
 
 
@@ -669,7 +814,31 @@ def fixed_cases():
         ],
         'dotfiles': [{'name': '.ready', 'text': ''}],
     }
+    agent = {
+        # the whole agent loop once: presence + placement watches, first
+        # synchronisation, ready notifications, heartbeat; then a stale and a
+        # ready notification; every mutating fs operation also made to fail
+        'kind': 'agent', 'check_existing': True, 'presence': True,
+        'placement_root': True, 'faults': True,
+        'steps': ['run_once', 'notify_stale', 'notify_ready'],
+        'instances': [
+            {'name': 'foo.web#0000000001', 'role': 'extra', 'placed': False,
+             'manifest': None, 'pnode': False, 'pdata': None,
+             'file': {'manifest': _man(1), 'pdata': _pd(None, 1578270000.5)},
+             'rel': 'before', 'delta_ms': 5000},
+            {'name': 'foo.web#0000000002', 'role': 'missing', 'placed': True,
+             'manifest': _man(2), 'pnode': True,
+             'pdata': _pd(1, 1578279999.25), 'file': None},
+            {'name': 'foo.db-1#0000000012', 'role': 'existing', 'placed': True,
+             'manifest': _man(3), 'pnode': True, 'pdata': _pd(0, 1578280000.0),
+             'file': {'manifest': _man(3), 'pdata': _pd(0, 1578270000.0)},
+             'rel': 'after', 'delta_ms': 5000},
+        ],
+        'dotfiles': [{'name': '.foo.web#0000000002-abc123_x',
+                      'text': 'cpu: 10%\nmemo'}],
+    }
     return [('aimed-sync-extra-missing-outdated', mixed),
+            ('aimed-agent-run-once-notifications', agent),
             ('aimed-sync-only-outdated', only_outdated),
             ('aimed-sync-json-value-domain', wide),
             ('aimed-fault-replace-existing', replace_old),
